@@ -352,6 +352,9 @@ func (c *Ctx) callByContract(st *State, in ssa.Instruction, sp *FuncSpec, key st
 		}
 	}
 	for _, en := range sp.Ensures {
+		if mentionsCallLog(en.Expr) {
+			continue // a clause about the callee's own ghost call log says nothing in the caller's state
+		}
 		if t, ok := c.tryEvalBool(env2, en.Expr); ok {
 			st.assume(t)
 		} else {
@@ -363,12 +366,12 @@ func (c *Ctx) callByContract(st *State, in ssa.Instruction, sp *FuncSpec, key st
 		var ts []*Term
 		ok := true
 		for _, a := range args {
-			t, isT := a.(*Term)
+			at, isT := pureArgTerms(a)
 			if !isT {
 				ok = false
 				break
 			}
-			ts = append(ts, t)
+			ts = append(ts, at...)
 		}
 		if ok {
 			for i := 0; i < rs.Len(); i++ {
@@ -383,6 +386,48 @@ func (c *Ctx) callByContract(st *State, in ssa.Instruction, sp *FuncSpec, key st
 		}
 	}
 	return result
+}
+
+// pureArgTerms flattens an argument of a pure function to its scalar leaves (a struct contributes its
+// scalar fields and symbolic pointer identities; anything else makes the call non-functional).
+func pureArgTerms(v Value) ([]*Term, bool) {
+	switch x := v.(type) {
+	case *Term:
+		return []*Term{x}, true
+	case *StructV:
+		var out []*Term
+		for _, f := range x.F {
+			ts, ok := pureArgTerms(f)
+			if !ok {
+				return nil, false
+			}
+			out = append(out, ts...)
+		}
+		return out, true
+	case StructV:
+		return pureArgTerms(&x)
+	case *ArrayV:
+		var out []*Term
+		for _, f := range x.Elems {
+			ts, ok := pureArgTerms(f)
+			if !ok {
+				return nil, false
+			}
+			out = append(out, ts...)
+		}
+		return out, true
+	case PtrV:
+		if x.Nil {
+			return []*Term{IntC(0)}, true
+		}
+		if x.Sym != nil {
+			return []*Term{x.Sym}, true
+		}
+		return nil, false
+	case FuncV:
+		return nil, true // function-typed padding fields carry no data
+	}
+	return nil, false
 }
 
 func (c *Ctx) pureApp(key string, sig *types.Signature, i int, ts []*Term) *Term {
@@ -1010,4 +1055,19 @@ func (c *Ctx) tryEvalBool(env *SpecEnv, e *SExpr) (t *Term, ok bool) {
 		}
 	}()
 	return c.evalBool(env, e), true
+}
+
+func mentionsCallLog(e *SExpr) bool {
+	if e == nil {
+		return false
+	}
+	if e.Kind == "call" && len(e.Args) > 0 && e.Args[0].Kind == "ident" && e.Args[0].Name == "calls" {
+		return true
+	}
+	for _, a := range e.Args {
+		if mentionsCallLog(a) {
+			return true
+		}
+	}
+	return false
 }
